@@ -868,6 +868,23 @@ func (f *Frame) evalCall(e *spec.Call, st, old *State) TV {
 		a := f.eval(e.Args[0], st, old)
 		live := x.heapGet(st, "$live", smt.Array(RefS, smt.Bool))
 		return TV{B.Select(live, x.scalar(a.V, a.T)), types.Typ[types.Bool]}
+	case "real", "imag":
+		if len(e.Args) != 1 {
+			specErr("%s(z)", name)
+		}
+		a := f.eval(e.Args[0], st, old)
+		cs, ok := a.V.(*Struct)
+		if !ok || len(cs.Fields) != 2 || a.T == nil {
+			specErr("%s of a non-complex value", name)
+		}
+		ft := types.Typ[types.Float64]
+		if b, ok := a.T.Underlying().(*types.Basic); ok && b.Kind() == types.Complex64 {
+			ft = types.Typ[types.Float32]
+		}
+		if name == "real" {
+			return TV{cs.Fields[0], ft}
+		}
+		return TV{cs.Fields[1], ft}
 	case "fpeq":
 		return TV{B.FPCmp("fp.eq", f.evalTerm(e.Args[0], st, old), f.evalTerm(e.Args[1], st, old)), types.Typ[types.Bool]}
 	}
